@@ -36,17 +36,17 @@ Definition pool_clean (s : state) : Prop := Forall (fun m => m = []) (pool s).
 
 Lemma step_clean s o : pool_clean s -> pool_clean (step s o).
 Proof.
-  unfold pool_clean. intro H. destruct o; cbn.
-  - inversion H as [E|m r Hm Hr E]; cbn; [constructor|exact Hr].
-  - destruct (stack s); cbn; [assumption|]. constructor; auto.
-  - destruct (stack s); cbn; assumption.
+  unfold pool_clean. destruct s as [st pl]. cbn. intro H. destruct o; cbn.
+  - destruct pl as [|m r]; cbn; [constructor|now inversion H].
+  - destruct st; cbn; [assumption|]. constructor; auto.
+  - destruct st; cbn; assumption.
 Qed.
 Lemma step_same s o : pool_clean s -> stack (step s o) = step_fresh (stack s) o.
 Proof.
-  unfold pool_clean. intro H. destruct o; cbn.
-  - inversion H as [E|m r Hm Hr E]; cbn; [reflexivity|now subst].
-  - destruct (stack s); reflexivity.
-  - destruct (stack s); reflexivity.
+  unfold pool_clean. destruct s as [st pl]. cbn. intro H. destruct o; cbn.
+  - destruct pl as [|m r]; cbn; [reflexivity|]. inversion H. now subst.
+  - destruct st; reflexivity.
+  - destruct st; reflexivity.
 Qed.
 Theorem pooled_equals_fresh ops : forall s, pool_clean s ->
   stack (fold_left step ops s) = fold_left step_fresh ops (stack s).
